@@ -44,6 +44,7 @@ BOUNDS = {
     "step_string": "skeleton fixed per item; target = any str with 0 < len <= L (L in item label) resolved by a standard attempt; every configuration/history/reenter; source fixed per item",
     "step_unres": "skeleton fixed per item; target = str of <= maxlen chars over the skeleton's key alphabet + '.#' that no standard attempt resolves",
     "snapshot_legal": "skeleton fixed per item; every legal configuration + reachable history",
+    "macro_step": "wired skeletons of C02 (every state handles E0-E3 with guarded candidates); every legal configuration; one event; guard outcomes symbolic (one variable per evaluated guard): whatever set of transitions the macrostep executes, every observation point sees a legal configuration",
     "step_abort": "skeleton fixed per item; as step_node (reenter False) plus: one state (symbolic) whose entry or exit list (symbolic) ends with an action nobody implements, so the transition aborts in the middle of its entry or exit phase; the configuration must be legal at every observation point and equal to the one before",
 }
 ASSUMPTIONS = [
@@ -58,6 +59,17 @@ SK: Any = None
 
 
 def set_params(p: Dict[str, Any]) -> None:
+    if p.get("wired"):
+        global P
+        from harness import c02
+
+        P = p
+        c02.set_params(p)
+        return
+    _set_params_sk(p)
+
+
+def _set_params_sk(p: Dict[str, Any]) -> None:
     """Called natively (no tracing) before an item is analysed / replayed:
     builds the skeleton machine and its public reachability table once."""
     global P, SK
@@ -258,6 +270,62 @@ def step_abort(eng: int, c0: int, c1: int, c2: int, c3: int, c4: int, c5: int, h
     return verdict(ok, nontrivial=err is not None)
 
 
+def macro_step(c0: int, c1: int, c2: int, c3: int, c4: int, c5: int, tri: int, b0: bool, b1: bool, b2: bool, b3: bool,
+               b4: bool, b5: bool, b6: bool, b7: bool) -> bool:
+    """
+    pre: gate('macro_step', c0=c0, c1=c1, c2=c2, c3=c3, c4=c4, c5=c5)
+    post: _
+    """
+    from xstate_statemachine import Interpreter, SyncInterpreter
+    from xstate_statemachine.events import Event
+    from xstate_statemachine.exceptions import XStateMachineError
+
+    from harness import c02
+
+    w = c02.W
+    eng = P["eng"]
+    active = build_config(w.machine, Chooser([c0, c1, c2, c3, c4, c5]))
+    c02.GV["fn"] = c02._guard_val([b0, b1, b2, b3, b4, b5, b6, b7], tri)
+    del c02.GCALLS[:]
+    it = (SyncInterpreter if eng == 0 else Interpreter)(w.machine)
+    it.status = "running"
+    it.__dict__["_rec"] = []
+    it._active_state_nodes = set(active)
+    watch = LegalityWatch(w.machine)
+    it.use(watch)
+    it.subscribe(watch.subscriber)
+    ev = Event(P["event"])
+    try:
+        if eng == 0:
+            it.send(ev)
+        else:
+            async def go() -> None:
+                import asyncio
+
+                it._event_loop_task = asyncio.ensure_future(it._run_event_loop())
+                await it.send(ev)
+                await it._event_queue.join()
+                it._event_loop_task.cancel()
+                try:
+                    await it._event_loop_task
+                except BaseException:  # noqa: BLE001
+                    pass
+
+            common.drive(go())
+    except XStateMachineError:
+        pass
+    r = model.legal_reason(list(it._active_state_nodes), w.machine)
+    why = None
+    if r is not None:
+        why = f"after the macrostep: {r}; active={sorted(n.id for n in it._active_state_nodes)}"
+    elif watch.bad:
+        why = "; ".join(watch.bad[:3])
+    if why:
+        _note(f"{'sync' if eng == 0 else 'async'} event {P['event']} from {sorted(n.id for n in active)} (several regions may each select a transition): {why}")
+    fired = [x for x in it.__dict__["_rec"] if x[0] == "tr"]
+    return verdict(why is None, nontrivial=len(fired) >= 1)
+
+
 def _resolvable(tgt: str, src: Any, machine: Any) -> bool:
     """True iff one of the engines' four standard resolution attempts
     succeeds (the precondition calls the REAL resolver)."""
@@ -405,6 +473,7 @@ OBLIGATIONS = {
     "step_unres": step_unres,
     "snapshot_legal": snapshot_legal,
     "step_abort": step_abort,
+    "macro_step": macro_step,
 }
 
 
@@ -480,6 +549,12 @@ def items(tier: str, seed: int) -> List[Dict[str, Any]]:
         spec = skeletons.CURATED[sid]
         out.append({"ob": "step_unres", "params": {"sid": sid, "spec": spec, "maxlen": 2 if quick else 3, "alphabet": _alphabet(spec)},
                     "timeout": 240 if quick else 900, "label": f"step_unres[{sid}]"})
+    # whole macrosteps (several regions select a transition for one event) on the wired skeletons of C02
+    for sid in (("CUR3", "CUR7", "CUR11") if quick else ("CUR3", "CUR4", "CUR6", "CUR7", "CUR10", "CUR11", "CUR13")):
+        for ev in ("E0", "E2", "E4") if quick else ("E0", "E1", "E2", "E3", "E4"):
+            for eng in (0, 1):
+                out.append({"ob": "macro_step", "params": {"sid": sid, "spec": skeletons.CURATED[sid], "eng": eng, "event": ev, "wired": True},
+                            "timeout": 330 if quick else 900, "label": f"macro_step[{sid},{ev},{'sync' if eng == 0 else 'async'}]"})
     for sid, spec in cur + fam[: (10 if quick else 40)]:
         out.append({"ob": "snapshot_legal", "params": {"sid": sid, "spec": spec}, "timeout": 60, "label": f"snapshot_legal[{sid}]"})
     return out
